@@ -114,6 +114,54 @@ pub fn e1_spec(id: &str, tier: &str) -> Option<Spec> {
             config: "seq",
             assumptions: base_assumptions(),
         }),
+        "C12" | "C13" => {
+            use ql::ex::Kind;
+            let c13 = id == "C13";
+            let kinds: Vec<Kind> = if c13 { vec![Kind::Fb] } else { vec![Kind::Fx, Kind::Fxj] };
+            let mut programs = Vec::new();
+            for k in kinds {
+                if quick {
+                    programs.extend(progs::quick_cyc(k, if c13 { 140 } else { 280 }));
+                } else {
+                    programs.extend(progs::quick_cyc(k, 1_000_000).into_iter().take(14));
+                    programs.extend(progs::all_cyc(k));
+                }
+            }
+            Some(Spec {
+                id: if c13 { "C13" } else { "C12" },
+                programs,
+                depth: 4,
+                alphabet: Box::new(progs::cyc_alphabet),
+                flags: Flags { values: true, fresh_end: true, ..Flags::default() },
+                rule: RULE_E1,
+                cap_s: cap,
+                config: "seq",
+                assumptions: {
+                    let mut a = base_assumptions();
+                    a.push(if c13 {
+                        "reference: SCC analysis of the input-determined call graph; all operands of an operator are evaluated, branches depend on inputs only".into()
+                    } else {
+                        "reference: Kleene iteration from bottom over the bit-set lattice; all bodies are monotone (join, meet, input masks, input-controlled branches)".into()
+                    });
+                    a
+                },
+            })
+        }
+        "C15" => Some(Spec {
+            id: "C15",
+            programs: progs::nonconv_set(),
+            depth: if quick { 4 } else { 5 },
+            alphabet: Box::new(progs::nonconv_alphabet),
+            flags: Flags { values: true, iter_bound: true, ..Flags::default() },
+            rule: RULE_E1,
+            cap_s: cap,
+            config: "seq",
+            assumptions: {
+                let mut a = base_assumptions();
+                a.push("the generated systems have no fixpoint at all over the value domain (checked by brute force at start-up), so no iteration scheme can converge".into());
+                a
+            },
+        }),
         _ => None,
     }
 }
